@@ -236,3 +236,8 @@ func LibGoroutinesCreatedBy(s *simrt.Sim, fnSuffix ...string) []simrt.GInfo {
 	}
 	return out
 }
+
+// MaybeFine enables statement-level yields in the named package for num/den of the runs (decided on the schedule tape).
+func MaybeFine(r *Run, c *simrt.Config, pkg string, num, den int) {
+	c.FineNum, c.FineDen, c.FinePkg = num, den, pkg
+}
